@@ -288,3 +288,5 @@ SUBS = [
     Sub("misc", lambda tier: misc_cases(tier), check_misc, quick=400, thorough=3000),
     Sub("from_data", lambda tier: from_data_cases(tier), check_from_data, quick=400, thorough=3000),
 ]
+
+RULE += ' Also: narrow integer parents whose marginal sums leave the type; T taken again after a change of the histogram and after a change of an earlier transpose.'
